@@ -102,7 +102,13 @@ class Program:
         if lex == "HEREDOC_END":
             return self.labels.pop()
         if lex == "HDTEXT":
-            return r.choice([" text %d\n", " a {b} $ %d\r\n", "\n l%d\n"]) % k
+            lbl = self.labels[-1] if self.labels else "EOT"
+            # (a line that starts with the label followed by a name byte does not end the body, in any version)
+            return r.choice([" text %d\n", " a {b} $ %d\r\n", "\n l%d\n", " t%d\n" + lbl + "9 x\n", " u%d\n" + lbl + "_a;\n"]) % k
+        if lex == "NDTEXT":
+            lbl = self.labels[-1] if self.labels else "EOT"
+            # a nowdoc body is raw text: nothing in it is interpolated
+            return r.choice([" raw $v%d {$w} ${x}\n", " $a[%d] $b->c \\n\n", "\n q%d\n" + lbl + "2;\n"]) % k
         if lex == "HDTEXT_INDENT":
             return "    indented %d\n    " % k
         if lex.startswith("CAST:"):
@@ -349,6 +355,9 @@ RECIPES = {
     "line": [("T_WHITESPACE", b" "), ("T_COMMENT", b"// c\n")],
     "hash_crlf": [("T_COMMENT", b"# c\r\n"), ("T_WHITESPACE", b"\t")],
     "empty_block": [("T_COMMENT", b"/**/")],
+    "hash_empty": [("T_COMMENT", b"#\n")],
+    "line_empty": [("T_WHITESPACE", b"\t"), ("T_COMMENT", b"//\r\n")],
+    "hash_cr_text": [("T_COMMENT", b"#x\n"), ("T_COMMENT", b"#\n"), ("T_WHITESPACE", b" ")],
     "cr": [("T_WHITESPACE", b"\r")],
     "mix": [("T_WHITESPACE", b"\n"), ("T_COMMENT", b"// x\n"), ("T_DOC_COMMENT", b"/** y */"), ("T_WHITESPACE", b" ")],
 }
